@@ -706,6 +706,15 @@ func (u *connectStreamingUnmarshaler) Unmarshal(message any) *Error {
 	if err := json.Unmarshal(env.Data.Bytes(), &end); err != nil {
 		return errorf(CodeInternal, "unmarshal end stream message: %w", err)
 	}
+	for name, values := range end.Trailer {
+		// The metadata keys come from JSON, not from an HTTP parser, so they may
+		// not be in canonical form yet.
+		canonical := http.CanonicalHeaderKey(name)
+		if name != canonical {
+			delete(end.Trailer, name)
+			end.Trailer[canonical] = append(end.Trailer[canonical], values...)
+		}
+	}
 	u.trailer = end.Trailer
 	u.endStreamErr = (*Error)(end.Error)
 	if u.endStreamErr != nil && u.endStreamErr.code == 0 {
